@@ -371,6 +371,7 @@ class Scheduler(object):
         self.waiting = {}  # thread name -> (what, object) of the blocking operation it is retrying
         self.deadlock = None
         self.idle_polls = 0  # consecutive polls without any thread making a step
+        self.blocked_log = []  # (thread, kind of operation) each time a blocking operation could not proceed at once
 
     # ---- helpers
     def _prio_of(self, name):
@@ -527,6 +528,8 @@ class Scheduler(object):
             with self.cv:
                 self.threads[me].blocked = True
                 self.waiting[me] = (what, obj)
+                if len(self.blocked_log) < 10000:
+                    self.blocked_log.append((me, what))
 
     def state_changed(self):
         with self.cv:
@@ -542,6 +545,7 @@ class Scheduler(object):
             "fired": list(self.fired),
             "aborted": self.aborted,
             "deadlock": self.deadlock,
+            "blocked": list(self.blocked_log),
             "polls": self.polls,
             "dynamic_threads": self.ndyn,
         }
